@@ -1108,6 +1108,38 @@ func c08OrderedSet(c *Ctx, f *ssa.Function) {
 			}
 		}
 	})
+	// outside add, the ordered values start empty and are the set's own: a
+	// literal that seeds them from a record's slice shares the caller's backing
+	// array (and whatever it holds) with the index
+	nOther := 0
+	for _, g := range c.P.Funcs("hostsfile") {
+		if g == f {
+			continue
+		}
+		core.EachInstr(g, func(in ssa.Instruction) {
+			st, ok := in.(*ssa.Store)
+			if !ok {
+				return
+			}
+			fa, ok := st.Addr.(*ssa.FieldAddr)
+			if !ok || core.FieldName(fa) != "vals" {
+				return
+			}
+			nOther++
+			fresh := core.IsNilConst(st.Val)
+			if _, isMake := st.Val.(*ssa.MakeSlice); isMake {
+				fresh = true
+			}
+			if sl, isSl := st.Val.(*ssa.Slice); isSl {
+				// a slice literal: a window of an array allocated right here
+				if _, isAl := sl.X.(*ssa.Alloc); isAl {
+					fresh = true
+				}
+			}
+			c.check(fresh, "C08.orderedset", g, "the ordered values of a new set start nil or freshly made", st,
+				"stored: "+core.Describe(st.Val)+"; first-seen order without duplicates is kept by add alone, on storage nobody else can reach")
+		})
+	}
 	// both halves happen together: a new key is recorded exactly when its value is appended
 	nAdd, nApp := 0, 0
 	for _, ci := range core.AllCalls(f) {
